@@ -1262,11 +1262,11 @@ def main(chk: C.Check, build: C.Build) -> None:
     # 1. programs of the modelled fragment x data x deleted subsets
     cases: list[tuple[list[tuple], dict[str, Any], tuple, bool]] = []
     site = site_programs()
-    site = [x for x in site if r.random() < (0.5 if thorough else 0.03)]
+    site = [x for x in site if r.random() < (0.5 if thorough else 0.02)]
     for prog, data in site:
         for sub, d in deletions(prog, data, r, 2, 2):
             cases.append((prog, d, sub, False))
-    nprog = 450 if thorough else 80
+    nprog = 450 if thorough else 60
     for i in range(nprog):
         prog = gen_block(r, [], depth=3 if thorough else 2, n=r.choice([1, 2, 2, 3]))
         dels = deletions(prog, BASE, r, 4, 12 if thorough else 3)
@@ -1385,7 +1385,7 @@ def main(chk: C.Check, build: C.Build) -> None:
         # Python == between an undefined and nil / false, in every policy: never sampled away
         a = k["replay"]["args"]
         return k["replay"]["kernel"] in ("_eq", "_contains") and "Undefined(" in a and ("None" in a or "False" in a)
-    kitems += [k for k in kall if must(k) or r.random() < (0.3 if thorough else 0.07)]
+    kitems += [k for k in kall if must(k) or r.random() < (0.3 if thorough else 0.05)]
 
     # 3. oracle beyond the model
     nbeyond = 0
